@@ -7,6 +7,7 @@ feature dictionary) and detect_bad_channels_cbin (mode over batches); property
 oracle evaluated directly on the implementation; the statistical detection
 clauses are measured on synthetic recordings."""
 import json
+import os
 import math
 import re
 import warnings
@@ -1260,12 +1261,50 @@ def check_constants(ctx):
         ctx.disagree("kriging range constant", {"op": "const", "name": "R_KEEP"})
 
 
+def real_obligations(ctx):
+    """The two theorems of coq/C15/PropsReal.v (real-number weight, coq-interval): counted as obligations, their
+    axioms checked against REAL_AXIOMS.  In the thorough tier coqchk re-checks IBL.C15.RealW and IBL.C15.PropsReal
+    with -norec, i.e. the installed third-party libraries they import (Interval, Flocq, Coquelicot, Bignums, the
+    Reals) are taken as compiled - re-checking them takes more than half an hour and is not about this property."""
+    names = common.theorem_names(common.COQ / PROP / "PropsReal.v")
+    ctx.coverage["obligations"] = ctx.coverage.get("obligations", 0) + len(names)
+    if ctx.broken_proofs:
+        return
+    try:
+        ass = common.print_assumptions(PROP, "PropsReal")
+    except RuntimeError as e:
+        ctx.broken_proofs.append({"theorem": "PropsReal", "why": str(e)[-1500:]})
+        return
+    ok = 0
+    for n in names:
+        ax = ass.get(n)
+        if ax is None:
+            ctx.broken_proofs.append({"theorem": n, "why": "no Print Assumptions output"})
+            continue
+        ctx.theorems[n] = ax if ax else "Closed under the global context"
+        extra = [a for a in ax if a not in REAL_AXIOMS]
+        if extra:
+            ctx.broken_proofs.append({"theorem": n, "why": "unlisted axioms: %s" % extra})
+        else:
+            ok += 1
+    if ctx.thorough() and not os.environ.get("IBLNPX_NO_COQCHK"):
+        try:
+            rc, out = common.sh(["timeout", "900", "coqchk", "-silent", "-o", "-Q", ".", "IBL",
+                                 "-norec", "IBL.C15.RealW", "-norec", "IBL.C15.PropsReal"], cwd=common.COQ, timeout=960)
+        except Exception as e:
+            rc, out = 124, repr(e)
+        ctx.coverage.setdefault("coqchk", {})["RealW+PropsReal (-norec)"] = {
+            "rc": rc, "note": "imported third-party libraries (Interval, Flocq, Coquelicot, Bignums, Reals) admitted as installed"}
+        if rc != 0:
+            ctx.broken_proofs.append({"theorem": "coqchk -norec IBL.C15.RealW IBL.C15.PropsReal", "why": out[-1500:]})
+            ok = 0
+    ctx.coverage["discharged"] = ctx.coverage.get("discharged", 0) + ok
+
+
 def run(ctx):
-    common.proof_obligations(ctx, whitelist=REAL_AXIOMS, modules=("Props", "PropsReal"))
-    for name, ax in ctx.theorems.items():     # only the two real-number theorems may depend on axioms
-        if ax != "Closed under the global context" and name not in ("C15_reals_weight_by_distance",
-                                                                    "C15_isolated_on_headers_reals"):
-            ctx.broken_proofs.append({"theorem": name, "why": "depends on axioms: %s" % ax})
+    common.proof_obligations(ctx, whitelist=[], modules=("Props",),
+                             make_targets=["C15/Props.vo", "C15/PropsReal.vo", "C15/Run.vo"])
+    real_obligations(ctx)
     check_constants(ctx)
     st = Stats()
     model = common.Extracted(PROP)
